@@ -120,6 +120,23 @@ func (b *c31Batch) Reset()                                      { b.ops = nil }
 func (b *c31Batch) Replay(database.KeyValueWriterDeleter) error { return nil }
 func (b *c31Batch) Inner() database.Batch                       { return b }
 
+// direct (non-batch) operations, so that an indexer that writes without a batch is modelled as well
+func c31PebblePutModel(_ *pebble.Database, k, v []byte) error {
+	c31Put(append([]byte{}, k...), append([]byte{}, v...))
+	return nil
+}
+func c31PebbleDeleteModel(_ *pebble.Database, k []byte) error { c31Del(k); return nil }
+func c31PebbleGetModel(_ *pebble.Database, k []byte) ([]byte, error) {
+	if i, ok := c31Find(k); ok {
+		return append([]byte{}, c31Store[i].v...), nil
+	}
+	return nil, database.ErrNotFound
+}
+func c31PebbleHasModel(_ *pebble.Database, k []byte) (bool, error) {
+	_, ok := c31Find(k)
+	return ok, nil
+}
+
 func c31PebbleNewBatchModel(_ *pebble.Database) database.Batch { return &c31Batch{} }
 
 type c31Iter struct {
@@ -342,7 +359,7 @@ func VerifC31History() {
 	c31Store = nil
 	ctx := context.Background()
 	maxOps := verifParam("maxOps", 4, 5)
-	maxWindow := verifParam("maxWindow", 2, 3)
+	maxWindow := verifParam("maxWindow", 3, 4)
 	window := uint64(1 + verifChoose("window", maxWindow))
 	dir := c31TempDir()
 	defer c31RemoveDir(dir)
